@@ -231,7 +231,9 @@ def a8(F, rep):
     if not calls:
         rep.add("A8", "idat-accumulators", False, where, "ANCHOR-MISSING: no accumulator update found in parse_idat")
         return
-    anchor = calls[-1][0]
+    # the walk is the loop: updates after it (trimming header and trailer off the collected payload) are not accumulations
+    in_cycle = [c for c in calls if any(c[0] in b.reachable_from(s2) for s2 in b.succ(c[0]))]
+    anchor = (in_cycle or calls)[-1][0]
     L = {x for x in b.normal_blocks() if anchor in b.reachable_from(x) and x in b.reachable_from(anchor)}
     if anchor not in L or len(L) < 2:
         rep.add("A8", "idat-accumulators", False, where, "UNRECOGNISED-IDIOM: the accumulator updates are not inside a loop")
